@@ -1,7 +1,7 @@
 CONSTANTS
   Driver = "poll"
   Shapes <- ShapesQuick
-  MaxSteps = 7
+  MaxSteps = 6
   MaxCancel = 2
   MaxFeed = 2
   Eager = FALSE
